@@ -8,9 +8,24 @@ wt, X, sid, prop = sys.argv[1:5]
 src = f"{wt}/MUTATION/{X}"
 ENV = dict(os.environ, GOFLAGS="-mod=mod", GOPROXY="off", GOSUMDB="off", GOTOOLCHAIN="local")
 where = open(f"{src}/where.txt").read()
-m = re.search(r"(?i)director\w*\W+(?:is\s+)?`?([\w./-]+)", where) or re.search(r"cp \S+ (\S+)/zz_", where) or re.search(r"cd ([\w/]+) &&", where) or re.search(r"\./([\w/]+)/?\s*$", where, re.M)
-if not m:
+def find_dir(where):
+    # the demo directory = an existing repo directory named in where.txt
+    cands = re.findall(r"[\w./-]+", where)
+    best = None
+    for c in cands:
+        c2 = c.strip("./").rstrip("/")
+        if c2.endswith("_test.go"):
+            c2 = os.path.dirname(c2)
+        if c2 and not c2.startswith("MUTATION") and os.path.isdir("/repo/" + c2) and any(f.endswith(".go") for f in os.listdir("/repo/" + c2)):
+            if best is None or len(c2) > len(best):
+                best = c2
+    return best
+d0 = find_dir(where)
+if not d0:
     print("cannot parse where.txt:\n" + where); sys.exit(2)
+class _M:
+    def group(self, i): return d0
+m = _M()
 d = m.group(1).strip("/").removeprefix("./")
 m = re.search(r"-run\s+'?\"?([^'\"\s]+)", where)
 runpat = m.group(1)
